@@ -170,7 +170,7 @@ fn e1_units(tier: Tier) -> Vec<Unit> {
             }
         }
     }));
-    units.push(Unit::new("JSR @ERn/R", 7, "7 target registers x target covering set x upper bytes {00,5a,ff} x 36 stack pointers x CCR {00,ff}", |ctx, chunk| {
+    units.push(Unit::new("JSR @ERn/R", 8, "all 8 target registers x target covering set x upper bytes {00,5a,ff} x 36 stack pointers x CCR {00,ff}; JSR @ER7: the target is the stack pointer itself, before or after the push (both allowed), 24 bits either way", |ctx, chunk| {
         let ra = chunk as u8;
         for &t in target_cov().iter() {
             for top in [0x00u32, 0x5a, 0xff] {
@@ -179,7 +179,12 @@ fn e1_units(tier: Tier) -> Vec<Unit> {
                     f.ra = ra;
                     let mut c = case_with(ctx, "JSR @ERn", &f, dom::CODE_RAM);
                     c.er[7] = sp;
-                    c.er[ra as usize] = t | (top << 24);
+                    if ra == 7 && (t != target_cov()[0] || top != 0) {
+                        continue; // the target is SP: one pass over the stack pointers
+                    }
+                    if ra != 7 {
+                        c.er[ra as usize] = t | (top << 24);
+                    }
                     for &ccr in &[0x00u8, 0xff] {
                         c.ccr = ccr;
                         ctx.run(&c);
